@@ -685,6 +685,15 @@ class Translator:
                 # e wider than needed: clamp (e <= maxbits is the caller's side condition)
                 ee = z3.Extract(w - 1, 0, e.bv)
             return TV(z3.BitVecVal(1, w) << ee, False, pow2=True)
+        if f == 'shl':      # shl(x, e, bits): (x << e) mod 2**bits, symbolic e (e < bits is the caller's side condition)
+            x = self.as_tv(self.ev(n.args[0]))
+            e = self.as_tv(self.ev(n.args[1]))
+            bits = self._lit(n.args[2])
+            xb = conv(x, bits, False).bv
+            # canonical shift amount: its low 8 bits (bits <= 256), pushed to the leaves, independent of operand widths
+            e8 = z3.simplify(z3.Extract(7, 0, e.bv)) if e.w >= 8 else ext(TV(e.bv, False), 8)
+            eb = z3.ZeroExt(bits - 8, e8)
+            return TV(xb << eb, False)
         if f in ('be', 'le'):
             p = self.ev(n.args[0])
             cnt = self.as_tv(self.ev(n.args[1]))
@@ -729,7 +738,10 @@ class Translator:
         acc = z3.BitVecVal(0, W)
         c64 = to_index(cnt)
         cW = z3.ZeroExt(W - 64, c64) if W > 64 else z3.Extract(W - 1, 0, c64)
-        for idx in range(mx):
+        # positions that the entry facts rule out (idx >= upper bound of cnt) are dropped: same value, smaller and
+        # syntactically stable terms
+        ub = self.ctx.upper_bound(c64, mx)
+        for idx in range(min(mx, ub)):
             ii = z3.BitVecVal(idx, 64)
             b = self.ctx.elem(p, ii, self.old).bv
             zb = z3.ZeroExt(W - 8, b) if W > 8 else b
